@@ -258,7 +258,11 @@ def validate_traces(trace_files, out_dir, quirks="{}"):
                     timeout=3000, heap="3g")
         m = re.search(r'<<"VERDICT", "(.*)">>', r["out"])
         if not m or not r["ok"]:
-            raise ToolError("trace validation did not complete on %s:\n%s" % (tf, r["out"][-3000:]))
+            with open(tf + ".tlc.out", "w") as f:
+                f.write(r["out"])
+            i = r["out"].find("Error:")
+            raise ToolError("trace validation did not complete on %s (full TLC output in %s.tlc.out):\n%s"
+                            % (tf, tf, r["out"][max(0, i - 200):i + 2500]))
         v = json.loads(json.loads('"' + m.group(1) + '"'))
         if v["consumed"] != v["total"]:
             raise ToolError("trace not fully consumed: %s" % tf)
